@@ -16,7 +16,7 @@ p='/verif/seeded/%s/meta.json'%sys.argv[1]; m=json.load(open(p)); m['final_check
 PY
       echo "$id: $res"; continue; fi
   else git -C /repo apply $patch; fi
-  ./check $P --tier quick > build/rerun_$id.out 2>/dev/null; rc=$?
+  VERIF_EVIDENCE_DIR=/verif/build/seeded_evidence ./check $P --tier quick > build/rerun_$id.out 2>/dev/null; rc=$?
   git -C /repo checkout -q -- .
   v=$(grep '^VIOLATION' build/rerun_$id.out | head -1)
   first=$(grep -E '^\s+(PROP|PANIC|CORR|NO-LONGER)' build/rerun_$id.out | head -1 | awk '{print $1" "$3}' | tr -d ':')
